@@ -86,7 +86,8 @@ def global_state_guard():
     defaults = dict(lrt._DEFAULT_HANDLERS)
     import labrea.overload as lov
 
-    nlocks = set(lov._LOCKS)
+    lock_table = getattr(lov, "_LOCKS", None)  # private: absent in trees that keep their locks elsewhere
+    nlocks = set(lock_table) if lock_table is not None else set()
     entered = getattr(lrt, "_ENTERED", None)
     entered_snap = {k: list(v) for k, v in entered.items()} if entered is not None else None
     try:
@@ -99,9 +100,9 @@ def global_state_guard():
         lrt._RUNTIMES.update(runtimes)
         lrt._DEFAULT_HANDLERS.clear()
         lrt._DEFAULT_HANDLERS.update(defaults)
-        for k in list(lov._LOCKS):
+        for k in list(lock_table if lock_table is not None else ()):
             if k not in nlocks:
-                del lov._LOCKS[k]
+                del lock_table[k]
         rt.CUR = None
 
 
@@ -260,6 +261,12 @@ class World:
             ds = p.obj[op["ds"]]
             base = len(ds.effects)
             ds.add_effects(*[_effect(p.node[op["ds"]]["name"], base + i) for i in range(op["n"])])
+        elif kind == "set_cache":
+            from .build import RecordingCache
+
+            c = {"memory": labrea.cache.MemoryCache, "nocache": labrea.cache.NoCache, "recording": lambda: RecordingCache(op["ds"] + "#late")}[op["cache"]]
+            # (both forms of the public API: an instance, or a zero-argument factory)
+            p.obj[op["ds"]].set_cache(c if op.get("factory") else c())
         elif kind == "disable_effects":
             p.obj[op["ds"]].disable_effects()
         elif kind == "enable_effects":
